@@ -62,7 +62,6 @@ func VerifDumpRaw(am *Manager, addr common.Address, withCaches bool) string {
 		fmt.Fprintf(&sb, " ev(%x,%x,%x)", e.Address[:], e.Topics, e.Data)
 	}
 	if withCaches {
-		fmt.Fprintf(&sb, " suicideBackups=%d", len(a.beforeSuicide))
 		verifDumpStorage("storage", a.storage, &sb)
 		verifDumpStorage("assetCode", a.assetCode, &sb)
 		verifDumpStorage("assetId", a.assetId, &sb)
